@@ -3,7 +3,7 @@
    Model: Model/Coord.v (one internal label = one atomic task step, unconstrained scheduler).
 *)
 From Coq Require Import ZArith NArith List Bool Arith.
-From NSG Require Import Base.Prelude Model.Defender Model.Coord Proofs.CoordBase Proofs.CoordInv Proofs.CoordInvConn Proofs.CoordInvDispatch Proofs.CoordInvHandler Proofs.CoordProps Proofs.CoordDirect Proofs.CoordInv2 Proofs.CoordAgentStep Proofs.CoordBarrier.
+From NSG Require Import Base.Prelude Model.Defender Model.Coord Proofs.CoordBase Proofs.CoordInv Proofs.CoordInvConn Proofs.CoordInvDispatch Proofs.CoordInvHandler Proofs.CoordProps Proofs.CoordDirect Proofs.CoordInv2 Proofs.CoordAgentStep Proofs.CoordBarrier Proofs.CoordMeasure Proofs.CoordIsolation.
 Import ListNotations.
 
 (* token conservation, in EVERY reachable state and for every connection: a request that was read and not yet answered is in exactly one place - the action queue, a handler task, or the response queue; a connection that is not waiting has none *)
@@ -82,6 +82,27 @@ Theorem C01_idle_unmet :
        end.
 Proof. exact (@idle_barriers_unmet). Qed.
 
+(* progress: the measure `mu` (Proofs/CoordMeasure.v: weighted count of unread input, queued messages, handler tasks by wait state, queued responses and pending task events) strictly decreases with EVERY task step, from every state satisfying the invariant *)
+Theorem C01_progress :
+  forall (V W G : Type) (wstep : W -> V -> G -> W * V) (wreset : W -> W) (winit : W -> role -> W * V)
+         (goal : role -> V -> bool) (detect : list G -> G -> bool) (cfg : config) 
+         (s s' : @state V W G) (t : task),
+       @Inv V W G s ->
+       @exec V W G wstep wreset winit goal detect cfg s (@LRun G t) = @Some (@state V W G) s' ->
+       @mu V W G s' < @mu V W G s.
+Proof. exact (@mu_decreases). Qed.
+
+(* so from every reachable state at most `mu s` task steps can happen before the coordinator is idle again or new input arrives: an answer whose barrier is met is delivered after finitely many steps (with C01_quiescent / C01_idle_unmet: at rest, nothing is unanswered except behind an unmet barrier) *)
+Theorem C01_no_livelock :
+  forall (V W G : Type) (wstep : W -> V -> G -> W * V) (wreset : W -> W) (winit : W -> role -> W * V)
+         (goal : role -> V -> bool) (detect : list G -> G -> bool) (cfg : config) 
+         (w : W) (ls0 ls : list (@label G)) (s s' : @state V W G),
+       @execs V W G wstep wreset winit goal detect cfg (@init_state V W G w) ls0 = @Some (@state V W G) s ->
+       (forall l : @label G, @In (@label G) l ls -> @internal G l) ->
+       @execs V W G wstep wreset winit goal detect cfg s ls = @Some (@state V W G) s' ->
+       @length (@label G) ls <= @mu V W G s.
+Proof. exact (@bounded_internal_runs_reachable). Qed.
+
 (* a handler parked at a barrier always belongs to a registered agent (its continuation cannot fail) *)
 Theorem C01_parked_have_agents :
   forall (V W G : Type) (wstep : W -> V -> G -> W * V) (wreset : W -> W) (winit : W -> role -> W * V)
@@ -131,6 +152,8 @@ Print Assumptions C01_alternation.
 Print Assumptions C01_queue_bound.
 Print Assumptions C01_quiescent.
 Print Assumptions C01_idle_unmet.
+Print Assumptions C01_progress.
+Print Assumptions C01_no_livelock.
 Print Assumptions C01_parked_have_agents.
 Print Assumptions C01_garbage_answered.
 Print Assumptions C01_dispatcher_alive.
